@@ -11,6 +11,11 @@ import (
 )
 
 func BuildSchemaValidationV31(schema *base.Schema, validationString string, fieldInterface string) {
+	// References have no inline schema (SchemaProxy.Schema() yields nil for them) - there's nothing to decorate
+	if schema == nil {
+		return
+	}
+
 	// Parse and apply validation rules from the Validator field
 	validationRules := strings.Split(validationString, ",")
 	for _, rule := range validationRules {
